@@ -464,8 +464,12 @@ def check_one(c):
                 kw["combos"] = combos
             if not (len(cases) == 1 and not cases[0]) or c["idx"] % 2:
                 kw["cases"] = cases
+            call_kw = dict(kw)
+            if "cases" in call_kw and c["idx"] % 3 == 1:
+                # the cases arrive as a one-shot iterator (a generator of dicts): every case must still be looked at once
+                call_kw["cases"] = (dict(x) for x in cases)
             try:
-                new = xyz.parse_into_cases(ds=obj, method=method, **kw)
+                new = xyz.parse_into_cases(ds=obj, method=method, **call_kw)
             except Exception as e:  # noqa
                 bad.append(("parse-raises", "parse_into_cases(%r) raised %s: %s" % (kw, type(e).__name__, e)))
                 continue
